@@ -80,7 +80,11 @@ struct ListTarget {
 	bool utilHasAny(int l) { return eventpp::hasAnyListener(lists[l]); }
 	template <typename C = Callback> typename std::enable_if<std::is_same<C, Fn>::value, bool>::type utilRemove(int l, const Fn & f) { return eventpp::removeListener(lists[l], f); }
 	template <typename C = Callback> typename std::enable_if<!std::is_same<C, Fn>::value, bool>::type utilRemove(int, const Fn &) { return false; }
+#ifndef VERIF_NO_PRIVATE
 	void presetCounter(unsigned v) { lists[0].currentCounter.store(v); lists[1].currentCounter.store(v); }
+#else
+	void presetCounter(unsigned) {}
+#endif
 	CL * find(int l) { return &lists[l]; }
 };
 
@@ -108,7 +112,11 @@ struct DispTarget {
 	template <typename C = Callback> typename std::enable_if<std::is_same<C, Fn>::value, bool>::type utilRemove(int l, const Fn & f) { return eventpp::removeListener(d, key(l), f); }
 	template <typename C = Callback> typename std::enable_if<!std::is_same<C, Fn>::value, bool>::type utilRemove(int, const Fn &) { return false; }
 	void presetCounter(unsigned) {}
+#ifndef VERIF_NO_PRIVATE
 	CL * find(int l) { auto it = d.eventCallbackListMap.find(key(l)); return it == d.eventCallbackListMap.end() ? nullptr : &it->second; }
+#else
+	CL * find(int) { return nullptr; }
+#endif
 };
 
 // ------------------------------------------------------------------ harness
@@ -147,7 +155,11 @@ struct Harness : HarnessBase {
 	int pos(int l, int id) const { for(size_t i = 0; i < order[l].size(); ++i) if(order[l][i] == id) return (int)i; return -1; }
 
 	// ---- wrap detection for C19's single relaxation
+#ifndef VERIF_NO_PRIVATE
 	unsigned readCounter(int l) { CL * c = t->find(l); return c ? (unsigned)c->currentCounter.load() : 0u; }
+#else
+	unsigned readCounter(int) { return 0u; }
+#endif
 	void noteAdd(int l, unsigned before) {
 		unsigned after = readCounter(l);
 		if(after < before) {
@@ -396,8 +408,9 @@ struct Harness : HarnessBase {
 		std::map<const void *, int> idx;
 		auto ix = [&](const void * p) -> int { if(!p) return -1; auto it = idx.find(p); if(it != idx.end()) return it->second; int n = (int)idx.size(); idx[p] = n; return n; };
 		for(int l = 0; l < cfg.nLists; ++l) {
-			CL * c = t->find(l);
 			k += fmt("L%d:", l);
+#ifndef VERIF_NO_PRIVATE
+			CL * c = t->find(l);
 			if(!c) { k += "absent|"; continue; }
 			unsigned cur = (unsigned)c->currentCounter.load();
 			int guard = 0;
@@ -408,6 +421,10 @@ struct Harness : HarnessBase {
 			guard = 0;
 			for(auto n = c->tail; n && guard < 24; n = n->previous, ++guard) k += fmt("%d,", ix(n.get()));
 			if(cfg.counterPreset >= 0) { unsigned dist = UINT_MAX - cur; k += dist < 24 ? fmt("W%u", dist) : "Wfar"; }
+#else
+			// private layout not available: the key is the model alone (coarser keys only merge more states)
+			if(cfg.comparable) for(int id : order[l]) k += tagOf[id] ? "t" : "f";
+#endif
 			k += "|M:";
 			for(int id : order[l]) { auto sp = handleOf[id].lock(); k += fmt("%d,", sp ? ix(sp.get()) : -9); }
 			k += "|";
